@@ -282,3 +282,30 @@ def resolve_copies(fn, expr):
     if src:
       return src
   return [expr]
+
+
+def receiver_names(cx, fn, method):
+  """global / parameter names the method ``method`` is invoked on inside ``fn``, receivers resolved per path
+  (sa/paths.py): a loop over a literal tuple of names counts for each of its elements."""
+  from .paths import PathExec
+  g = cx.cfg(fn)
+  nodes = nodes_calling(g, lambda c: isinstance(c.func, ast.Attribute) and c.func.attr == method)
+  out = {}
+  px = PathExec(cx, fn, unroll=0, follow_exceptions=False)
+
+  def names(t):
+    if not isinstance(t, tuple):
+      return []
+    if t[0] == 'param':
+      return [t[1]]
+    if t[0] == 'elem' and isinstance(t[1], tuple) and t[1][0] in ('tuple', 'list'):
+      return [n for x in t[1][1:] for n in names(x)]
+    if t[0] == 'either':
+      return [n for x in t[1:] for n in names(x)]
+    return []
+  for hit in px.run(nodes):
+    for c in g.calls(hit.node):
+      if isinstance(c.func, ast.Attribute) and c.func.attr == method:
+        for n in names(hit.term(c.func.value, px)):
+          out.setdefault(n, c)
+  return out
